@@ -225,7 +225,7 @@ fn check(d: &Disc, case: &mut Case) -> Result<(), Fail> {
 }
 
 fn peer_names() -> Vec<&'static str> {
-    vec!["printer", "p", "peer-1", "host_2", "0x", "web", "Printer", "a"]
+    vec!["printer", "p", "pa", "peer-1", "b", "ba", "host_2", "web", "Printer", "a"]
 }
 
 fn attr_strategy() -> BoxedStrategy<Vec<(String, Option<String>)>> {
@@ -250,7 +250,7 @@ fn strategy(_t: Tier) -> BoxedStrategy<Disc> {
         1 => Just(Ann::Own),
         1 => (0u8..5).prop_map(Ann::ServicePtr),
         2 => (0u8..4, 0u8..5).prop_map(|(w, i)| Ann::Foreign(w, i)),
-        1 => (0u8..5).prop_map(Ann::Deeper),
+        3 => (0u8..5).prop_map(Ann::Deeper),
     ];
     (0u8..2, vec(peer, 1..=5), vec(ann, 1..10), any::<bool>(), select(vec![60u32, 120, 4500]), any::<u8>())
         .prop_map(|(service, peers, seq, channel, ttl, rot)| {
